@@ -57,6 +57,9 @@ class Env:
                 C.SUBSIDY_HALVING_INTERVAL, C.INITIAL_SUBSIDY, C.CHAIN_SAMPLE_COUNT, C.CHAIN_SAMPLE_SIZE]
 
 
+MALFORMED_PK = b'\x01' * 64      # 64 bytes that are not a point on secp256k1
+
+
 class Keys:
     def __init__(self, n=6, offset=1000):
         self.sks = [ecdsa.SigningKey.from_secret_exponent(offset + i, curve=ecdsa.SECP256k1) for i in range(n)]
